@@ -1181,6 +1181,10 @@ func fixedPoisons(typ string) []DiscCase {
 		{Kind: "nameless", Poison: []byte(wrapEntries(typ, []string{e(`""`), e(`"new-1"`), e(`null`), `{}`}))},
 		{Kind: "nameless", Poison: []byte(wrapEntries(typ, []string{e(`""`)}))},
 		{Kind: "duplicate", Poison: []byte(wrapEntries(typ, []string{e(`"dup"`), e(`"dup"`), e(`"llama3:8b"`), e(`"dup"`)}))},
+		// the same name twice with digests in the spellings seen in the wild (bare hex, short, empty, a lone
+		// colon, an algorithm without a value) and the largest sizes a 64-bit integer holds
+		{Kind: "duplicate", Poison: []byte(wrapEntries(typ, []string{entryFor(typ, `"dup"`, "abc1"), entryFor(typ, `"dup"`, fmt.Sprintf("%064x", 77)), entryFor(typ, `"llama3:8b"`, ""), entryFor(typ, `"dup"`, ":")}))},
+		{Kind: "duplicate", Poison: []byte(wrapEntries(typ, []string{entryFor(typ, `"dup"`, "sha256:"), entryFor(typ, `"dup"`, "sha256:"+strings.Repeat("0", 63)+"1", "9223372036854775807"), entryFor(typ, `"phi-4"`, "deadbeef", "1152921504606846976")}))},
 		{Kind: "oversized", Over: &Oversize{Shape: "valid-beyond", Extra: 1}, Head: []string{"head-1"}},
 		{Kind: "oversized", Over: &Oversize{Shape: "valid-then-padding", Extra: 4096}, Head: []string{"head-1", "phi-4"}},
 	}
